@@ -1249,7 +1249,7 @@ class Interp:
             if h == 'ref':
                 walkloc(k[1])
                 return
-            if h == 'cmp':
+            if h == 'cmp' and len(k) == 4:
                 walk(k[2])
                 walk(k[3])
                 return
